@@ -490,6 +490,28 @@ func (x *execCtx) subquery(sel *selectStmt, env *rowEnv) (*relation, *pgErr) {
 }
 
 func (x *execCtx) fromRelation(fi *fromItem, outer *rowEnv) (*relation, *pgErr) {
+	if fi.values != nil {
+		out := &relation{}
+		for i := range fi.values[0] {
+			name := fmt.Sprintf("column%d", i+1)
+			if i < len(fi.colNames) {
+				name = fi.colNames[i]
+			}
+			out.cols = append(out.cols, colDesc{fi.alias, name, tText})
+		}
+		for _, row := range fi.values {
+			vals := make([]any, len(row))
+			for i, e := range row {
+				v, err := x.eval(e, outer)
+				if err != nil {
+					return nil, err
+				}
+				vals[i] = v
+			}
+			out.rows = append(out.rows, vals)
+		}
+		return out, nil
+	}
 	if fi.sub != nil {
 		rel, err := x.runSelect(fi.sub, outer)
 		if err != nil {
